@@ -22,11 +22,23 @@ macro_rules
 
 /-- A processor step inside the batcher changes `p` by the processor's own `step`. -/
 theorem procStep_p {cfg : Cfg} {s s' : State} {l : PLabel} (h : procStep cfg s l = some s') :
-    Processor.step pcfg s.p l = some s'.p ∧ s'.subs = s.subs ∧ s'.closed = s.closed ∧ s'.bc = s.bc ∧
+    Processor.step pcfg s.p l = some s'.p ∧ s'.subs = s.subs ∧ s'.closed = s.closed ∧ s'.cw = s.cw ∧ s'.cr = s.cr ∧
     s'.out = s.out ∧ s'.waitS = s.waitS ∧ s'.retS = s.retS := by
   cases l <;> simp only [procStep] at h <;> (try split at h) <;> (try split at h) <;>
     (try (simp only [reduceCtorEq] at h)) <;>
     (try (obtain ⟨p', hp, rfl⟩ := Option.map_eq_some_iff.mp h; simp_all))
+
+/-- A `Close` call either wins the processor's CAS or joins the calls waiting inside `queue.Close()`. -/
+theorem closeCall_cases {s s' : State} (h : closeCall s = some s') :
+    (∃ p', Processor.step pcfg s.p .closeBegin = some p' ∧ s.p.stopped = false ∧ s' = { s with p := p' }) ∨
+    (s.p.stopped = true ∧ s' = { s with cq := s.cq + 1 }) := by
+  simp only [closeCall] at h
+  split at h
+  · obtain ⟨p', hp, rfl⟩ := Option.map_eq_some_iff.mp h
+    exact Or.inl ⟨p', hp, by assumption, rfl⟩
+  · simp only [Option.some.injEq] at h
+    subst h
+    exact Or.inr ⟨by simp_all, rfl⟩
 
 /-- Every step either leaves the processor component alone or is a step of the processor LTS. -/
 theorem step_proj {cfg : Cfg} {s s' : State} {a : Label} (h : step cfg s a = some s') :
@@ -34,10 +46,9 @@ theorem step_proj {cfg : Cfg} {s s' : State} {a : Label} (h : step cfg s a = som
   cases a
   case proc l => exact Or.inr ⟨l, (procStep_p (by simpa [step] using h)).1⟩
   case closeCall =>
-    simp only [step, closeCall] at h
-    split at h <;> try contradiction
-    obtain ⟨p', hp, rfl⟩ := Option.map_eq_some_iff.mp h
-    exact Or.inr ⟨_, hp⟩
+    rcases closeCall_cases (by simpa [step] using h) with ⟨p', hp, _, rfl⟩ | ⟨_, rfl⟩
+    · exact Or.inr ⟨_, hp⟩
+    · exact Or.inl rfl
   all_goals (bstep h <;> exact Or.inl rfl)
 
 /-- **Projection**: the processor component of a reachable batcher state is a reachable state of
@@ -54,26 +65,47 @@ theorem reach_proj {cfg : Cfg} {s : State} (hr : Reach (lts cfg) s) : Reach (Pro
 
 /-- Normal form of a processor step inside the batcher: the processor's step plus what the batcher
 changes. -/
-theorem procStep_cases {cfg : Cfg} {s s' : State} {l : PLabel} (h : procStep cfg s l = some s') :
+theorem procStep_cases6 {cfg : Cfg} {s s' : State} {l : PLabel} (h : procStep cfg s l = some s') :
     ∃ p', Processor.step pcfg s.p l = some p' ∧
       ((s' = { s with p := p' } ∧ (∀ r, s.p.pc ≠ .popped r ∨ l ≠ .cbStart) ∧ l ≠ .cbReturn ∧ (∀ k t v f, l ≠ .enqueue k t v f) ∧
-          l ≠ .closeBegin) ∨
+          l ≠ .closeBegin ∧ l ≠ .closeReturn ∧ l ≠ .closeAgain) ∨
        (∃ k t v f, l = .enqueue k t v f ∧ s' = { s with p := p', calls := (s.p.nextId, s.p.now) :: s.calls }) ∨
        (∃ r, l = .cbStart ∧ s.p.pc = .popped r ∧ s' = { s with p := p', epc := .waiting r }) ∨
-       (∃ r i, l = .cbReturn ∧ s.epc = .sending r i ∧ s.subs.length ≤ i ∧ s' = { s with p := p', epc := .idle })) := by
+       (∃ r i, l = .cbReturn ∧ s.epc = .sending r i ∧ s.subs.length ≤ i ∧ s' = { s with p := p', epc := .idle }) ∨
+       (l = .closeReturn ∧ s' = { s with p := p', cl := s.cl + 1 }) ∨
+       (l = .closeAgain ∧ 0 < s.cq ∧ s' = { s with p := p', cq := s.cq - 1, cl := s.cl + 1 })) := by
   cases l <;> simp only [procStep] at h <;> (try split at h) <;> (try split at h) <;>
     (try (simp only [reduceCtorEq] at h)) <;>
     (try (obtain ⟨p', hp, rfl⟩ := Option.map_eq_some_iff.mp h; refine ⟨p', hp, ?_⟩; simp_all)) <;>
     (try exact ⟨_, _, ⟨rfl, rfl⟩, by assumption⟩)
 
+/-- The same with the two returns of `queue.Close()` folded into the generic case (they only move
+the `Close` counters). -/
+theorem procStep_cases {cfg : Cfg} {s s' : State} {l : PLabel} (h : procStep cfg s l = some s') :
+    ∃ p', Processor.step pcfg s.p l = some p' ∧
+      ((∃ cq cl, s' = { s with p := p', cq := cq, cl := cl } ∧ (∀ r, s.p.pc ≠ .popped r ∨ l ≠ .cbStart) ∧ l ≠ .cbReturn ∧
+          (∀ k t v f, l ≠ .enqueue k t v f) ∧ l ≠ .closeBegin) ∨
+       (∃ k t v f, l = .enqueue k t v f ∧ s' = { s with p := p', calls := (s.p.nextId, s.p.now) :: s.calls }) ∨
+       (∃ r, l = .cbStart ∧ s.p.pc = .popped r ∧ s' = { s with p := p', epc := .waiting r }) ∨
+       (∃ r i, l = .cbReturn ∧ s.epc = .sending r i ∧ s.subs.length ≤ i ∧ s' = { s with p := p', epc := .idle })) := by
+  obtain ⟨p', hp, hc⟩ := procStep_cases6 h
+  refine ⟨p', hp, ?_⟩
+  rcases hc with ⟨rfl, h1, h2, h3, h4, _, _⟩ | hc | hc | hc | ⟨rfl, rfl⟩ | ⟨rfl, _, rfl⟩
+  · exact Or.inl ⟨s.cq, s.cl, rfl, h1, h2, h3, h4⟩
+  · exact Or.inr (Or.inl hc)
+  · exact Or.inr (Or.inr (Or.inl hc))
+  · exact Or.inr (Or.inr (Or.inr hc))
+  · exact Or.inl ⟨s.cq, s.cl + 1, rfl, by simp, by simp, by simp, by simp⟩
+  · exact Or.inl ⟨s.cq - 1, s.cl + 1, rfl, by simp, by simp, by simp, by simp⟩
+
 def InvCtl (s : State) : Prop :=
   (s.epc = .idle → ∀ r, s.p.pc ≠ .running r) ∧
   (∀ r, s.epc = .waiting r → s.p.pc = .running r) ∧
   (∀ r i, s.epc = .sending r i → s.p.pc = .running r) ∧
-  (s.closed = true ↔ (s.bc = .waiting ∨ s.bc = .returned)) ∧
-  (s.closed = true → s.p.cpc = .returned) ∧
-  (s.bc = .idle ↔ s.p.cpc = .idle) ∧
-  (s.bc = .returned → ∀ u ∈ s.subs, u.pc = .done)
+  ((s.closed = true ∨ 0 < s.cl ∨ 0 < s.cw ∨ 0 < s.cr) → (s.p.cpc = .tokenTaken ∨ s.p.cpc = .returned)) ∧
+  ((0 < s.cw ∨ 0 < s.cr) → s.closed = true) ∧
+  (0 < s.cr → ∀ u ∈ s.subs, u.pc = .done) ∧
+  (0 < s.cq → s.p.stopped = true)
 
 theorem invCtl_step {cfg : Cfg} {s s' : State} {a : Label} (hA : Processor.InvA s.p) (h : InvCtl s)
     (hst : step cfg s a = some s') : InvCtl s' := by
@@ -82,27 +114,77 @@ theorem invCtl_step {cfg : Cfg} {s s' : State} {a : Label} (hA : Processor.InvA 
   have ht := Processor.tok3 s.p.token
   cases a
   case proc l =>
-    obtain ⟨p', hp, hc⟩ := procStep_cases (by simpa [step] using hst)
-    rcases hc with ⟨rfl, h1, h2, h3, h4⟩ | ⟨k, t, v, f, rfl, rfl⟩ | ⟨r, rfl, hpc, rfl⟩ | ⟨r, i, rfl, he, hi, rfl⟩
+    obtain ⟨p', hp, hc⟩ := procStep_cases6 (by simpa [step] using hst)
+    rcases hc with ⟨rfl, h1, h2, h3, h4, h5, h6⟩ | ⟨k, t, v, f, rfl, rfl⟩ | ⟨r, rfl, hpc, rfl⟩ | ⟨r, i, rfl, he, hi, rfl⟩ |
+      ⟨rfl, rfl⟩ | ⟨rfl, hq, rfl⟩
     · cases l <;> step_cases hp <;> (try (simp only [process]; split)) <;> (try split) <;> simp_all <;> grind
     · step_cases hp <;> (try (simp only [process]; split)) <;> (try split) <;> simp_all <;> grind
     · step_cases hp <;> simp_all
     · step_cases hp <;> simp_all
+    · step_cases hp <;> simp_all <;> grind
+    · step_cases hp <;> simp_all <;> grind
   case closeCall =>
-    simp only [step, closeCall] at hst
-    split at hst <;> try contradiction
-    obtain ⟨p', hp, rfl⟩ := Option.map_eq_some_iff.mp hst
-    step_cases hp <;> simp_all <;> grind
+    rcases closeCall_cases (by simpa [step] using hst) with ⟨p', hp, _, rfl⟩ | ⟨hs, rfl⟩
+    · step_cases hp <;> simp_all <;> grind
+    · obtain ⟨a, b, c, d, e, f, _⟩ := h
+      exact ⟨a, b, c, d, e, f, fun _ => hs⟩
   case closeReturn =>
     bstep hst
     simp_all [allDone]
     grind
+  case subAcquire =>
+    bstep hst
+    · obtain ⟨a, b, c, d, e, f, g⟩ := h
+      exact ⟨a, b, c, d, e, f, g⟩
+    · obtain ⟨a, b, c, d, e, f, g⟩ := h
+      refine ⟨a, b, c, d, e, ?_, g⟩
+      intro hcr
+      have := e (Or.inr hcr)
+      simp_all
   all_goals (bstep hst <;> simp_all <;> (try grind))
 
 theorem invCtl {cfg : Cfg} {s : State} (hr : Reach (lts cfg) s) : InvCtl s := by
   induction hr with
   | init => simp [InvCtl, lts, init, Processor.init]
   | step a hr hst ih => exact invCtl_step (Processor.invA (reach_proj hr)) ih hst
+
+/-- Once `queue.Close()` has returned to the call that won the CAS, that call is counted: at the
+lock, in `wg.Wait()`, or returned. -/
+def InvCnt (s : State) : Prop := s.p.cpc = .returned → 0 < s.cl + s.cw + s.cr
+
+theorem invCnt_step {cfg : Cfg} {s s' : State} {a : Label} (h : InvCnt s)
+    (hst : step cfg s a = some s') : InvCnt s' := by
+  unfold InvCnt at *
+  cases a
+  case proc l =>
+    obtain ⟨p', hp, hc⟩ := procStep_cases6 (by simpa [step] using hst)
+    rcases hc with ⟨rfl, h1, h2, h3, h4, h5, h6⟩ | ⟨k, t, v, f, rfl, rfl⟩ | ⟨r, rfl, hpc, rfl⟩ | ⟨r, i, rfl, he, hi, rfl⟩ |
+      ⟨rfl, rfl⟩ | ⟨rfl, hq, rfl⟩
+    · cases l <;> step_cases hp <;> (try (simp only [process]; split)) <;> (try split) <;> simp_all
+    · step_cases hp <;> (try (simp only [process]; split)) <;> (try split) <;> simp_all
+    · step_cases hp <;> simp_all
+    · step_cases hp <;> simp_all
+    · intro _; simp; omega
+    · intro _; simp; omega
+  case closeCall =>
+    rcases closeCall_cases (by simpa [step] using hst) with ⟨p', hp, _, rfl⟩ | ⟨hs, rfl⟩
+    · step_cases hp <;> simp_all
+    · exact h
+  case closeLock =>
+    bstep hst
+    intro hc; have := h hc; simp; omega
+  case closeReturn =>
+    bstep hst
+    intro hc; have := h hc; simp; omega
+  all_goals (bstep hst <;> exact h)
+
+theorem invCnt {cfg : Cfg} {s : State} (hr : Reach (lts cfg) s) : InvCnt s := by
+  induction hr with
+  | init => simp [InvCnt, lts, init, Processor.init]
+  | step a _ hst ih => exact invCnt_step ih hst
+
+theorem close_count_pos {cfg : Cfg} {s : State} (hr : Reach (lts cfg) s) (h : s.p.cpc = .returned) :
+    0 < s.cl + s.cw + s.cr := invCnt hr h
 
 /-! ### per-subscriber invariants -/
 
@@ -129,10 +211,7 @@ theorem invSub_step {cfg : Cfg} {s s' : State} {a : Label} (h : InvSub cfg s)
     obtain ⟨_, hs, hc, _⟩ := procStep_p (by simpa [step] using hst)
     rw [hs, hc]; exact h
   case closeCall =>
-    simp only [step, closeCall] at hst
-    split at hst <;> try contradiction
-    obtain ⟨p', hp, rfl⟩ := Option.map_eq_some_iff.mp hst
-    exact h
+    rcases closeCall_cases (by simpa [step] using hst) with ⟨p', hp, _, rfl⟩ | ⟨_, rfl⟩ <;> exact h
   case subAcquire =>
     bstep hst
     · exact h
@@ -183,7 +262,7 @@ theorem invSuf_step {cfg : Cfg} {s s' : State} {a : Label} (hC : InvCtl s) (h : 
   cases a
   case proc l =>
     obtain ⟨p', hp, hc⟩ := procStep_cases (by simpa [step] using hst)
-    rcases hc with ⟨rfl, -⟩ | ⟨k, t, v, f, rfl, rfl⟩ | ⟨r, rfl, hpc, rfl⟩ | ⟨r, i, rfl, he, hi, rfl⟩
+    rcases hc with ⟨cq', cl', rfl, -⟩ | ⟨k, t, v, f, rfl, rfl⟩ | ⟨r, rfl, hpc, rfl⟩ | ⟨r, i, rfl, he, hi, rfl⟩
     · exact h
     · exact h
     · intro j u hj
@@ -199,10 +278,7 @@ theorem invSuf_step {cfg : Cfg} {s s' : State} {a : Label} (hC : InvCtl s) (h : 
       have : ¬ i ≤ j := by omega
       simp_all
   case closeCall =>
-    simp only [step, closeCall] at hst
-    split at hst <;> try contradiction
-    obtain ⟨p', hp, rfl⟩ := Option.map_eq_some_iff.mp hst
-    exact h
+    rcases closeCall_cases (by simpa [step] using hst) with ⟨p', hp, _, rfl⟩ | ⟨_, rfl⟩ <;> exact h
   case execLock =>
     bstep hst
     · intro j u hj
@@ -292,7 +368,7 @@ theorem invOut_step {cfg : Cfg} {s s' : State} {a : Label} (hF : Processor.InvF 
     obtain ⟨p', hp, hc⟩ := procStep_cases hst'
     obtain ⟨es, hes⟩ := plog_mono hp
     have hmono : ∀ e, e ∈ s.p.log → e ∈ p'.log := by intro e he; rw [hes]; simp [he]
-    rcases hc with ⟨rfl, hn1, hn2, hn3, hn4⟩ | ⟨k, t, v, f, rfl, rfl⟩ | ⟨r, rfl, hpc, rfl⟩ | ⟨r, i, rfl, he, hi, rfl⟩
+    rcases hc with ⟨cq', cl', rfl, hn1, hn2, hn3, hn4⟩ | ⟨k, t, v, f, rfl, rfl⟩ | ⟨r, rfl, hpc, rfl⟩ | ⟨r, i, rfl, he, hi, rfl⟩
     · refine ⟨fun r hr => (h1 r hr).imp fun n hn => hmono _ hn, fun r hr => ⟨(h2 r hr).1, (h2 r hr).2.imp fun n hn => hmono _ hn⟩,
         h3, h4, h5, ?_⟩
       intro r hr
@@ -331,11 +407,10 @@ theorem invOut_step {cfg : Cfg} {s s' : State} {a : Label} (hF : Processor.InvF 
       · intro r' hr'; simp at hr'
       · intro r' i' hh; simp at hh
   case closeCall =>
-    simp only [step, closeCall] at hst
-    split at hst <;> try contradiction
-    obtain ⟨p', hp, rfl⟩ := Option.map_eq_some_iff.mp hst
-    step_cases hp
-    exact ⟨h1, h2, h3, h4, h5, h6⟩
+    rcases closeCall_cases (by simpa [step] using hst) with ⟨p', hp, _, rfl⟩ | ⟨_, rfl⟩
+    · step_cases hp
+      exact ⟨h1, h2, h3, h4, h5, h6⟩
+    · exact ⟨h1, h2, h3, h4, h5, h6⟩
   case execLock =>
     bstep hst
     · rename_i r he hcl
@@ -452,7 +527,7 @@ theorem invSubl_step {cfg : Cfg} {s s' : State} {a : Label} (hC : InvCtl s) (h :
   case proc l =>
     unfold InvSubl at *
     obtain ⟨p', hp, hc⟩ := procStep_cases (by simpa [step] using hst)
-    rcases hc with ⟨rfl, -⟩ | ⟨k, t, v, f, rfl, rfl⟩ | ⟨r, rfl, hpc, rfl⟩ | ⟨r, i, rfl, he, hi, rfl⟩
+    rcases hc with ⟨cq', cl', rfl, -⟩ | ⟨k, t, v, f, rfl, rfl⟩ | ⟨r, rfl, hpc, rfl⟩ | ⟨r, i, rfl, he, hi, rfl⟩
     · exact h
     · exact h
     · intro j u hj
@@ -469,10 +544,7 @@ theorem invSubl_step {cfg : Cfg} {s s' : State} {a : Label} (hC : InvCtl s) (h :
       simp only [SublOK, pend, he, hn, ↓reduceIte] at *
       exact this
   case closeCall =>
-    simp only [step, closeCall] at hst
-    split at hst <;> try contradiction
-    obtain ⟨p', hp, rfl⟩ := Option.map_eq_some_iff.mp hst
-    exact h
+    rcases closeCall_cases (by simpa [step] using hst) with ⟨p', hp, _, rfl⟩ | ⟨_, rfl⟩ <;> exact h
   case execLock =>
     unfold InvSubl at *
     bstep hst
